@@ -61,6 +61,11 @@ enum Op {
     MIsEmpty,
     MSnapVia(&'static str), // copy / deep_copy / display / debug
     MEqTo(Vec<(i64, i64)>),
+    /// `==` / `!=` with the shared container on the right, inside a tuple, negated
+    EqVia(&'static str, Vec<i64>),
+    MEqVia(&'static str, Vec<(i64, i64)>),
+    /// host API only: KMap::remove_path
+    RemPath(i64),
     // ---- compound (several guards / callbacks): executed, result not compared ----
     Compound(&'static str),
 }
@@ -123,7 +128,7 @@ impl Op {
             Op::Remove(i) => format!("(remove {})", i),
             Op::Retain(x) => format!("(retain {})", x),
             Op::IsEmpty | Op::MIsEmpty => "(isempty)".into(),
-            Op::EqTo(xs) | Op::NeTo(xs) => format!("(eq {})", ints_sp(xs)).replace(" )", ")"),
+            Op::EqTo(xs) | Op::NeTo(xs) | Op::EqVia(_, xs) => format!("(eq {})", ints_sp(xs)).replace(" )", ")"),
             Op::SwapWith(xs) => format!("(swap {})", ints_sp(xs)).replace(" )", ")"),
             Op::AddAll(d) => format!("(addall {})", d),
             Op::LastVia(_) => "(last)".into(),
@@ -134,14 +139,35 @@ impl Op {
             Op::Ins(k, v) => format!("(ins {} {})", k, v),
             Op::Ins1(k) => format!("(ins1 {})", k),
             Op::Put(k, v) => format!("(put {} {})", k, v),
-            Op::Rem(k) => format!("(rem {})", k),
+            Op::Rem(k) | Op::RemPath(k) => format!("(rem {})", k),
             Op::MGet(k) | Op::MAccess(k) => format!("(get {})", k),
             Op::Has(k) => format!("(has {})", k),
             Op::GetI(i) | Op::MIdx(i) => format!("(geti {})", i),
             Op::MExtend(es) => format!("(extend {})", es.iter().map(|(k, v)| format!("({} {})", k, v)).collect::<Vec<_>>().join(" ")).replace(" )", ")"),
-            Op::MEqTo(es) => format!("(eq {})", es.iter().map(|(k, v)| format!("({} {})", k, v)).collect::<Vec<_>>().join(" ")).replace(" )", ")"),
+            Op::MEqTo(es) | Op::MEqVia(_, es) => format!("(eq {})", es.iter().map(|(k, v)| format!("({} {})", k, v)).collect::<Vec<_>>().join(" ")).replace(" )", ")"),
             Op::Compound(n) => format!("(compound {})", n.replace(' ', "_")),
         }
+    }
+    /// the operation as a host-API call (KMap / KList helpers of the crate, no script), if it has one
+    fn host_json(&self) -> Option<Value> {
+        Some(match self {
+            Op::Put(k, v) => json!(["ins", k, v]),
+            Op::Rem(k) => json!(["rem", k]),
+            Op::RemPath(k) => json!(["rempath", k]),
+            Op::MGet(k) => json!(["get", k]),
+            Op::Has(k) => json!(["has", k]),
+            Op::MSize | Op::Size => json!(["size"]),
+            Op::MIsEmpty | Op::IsEmpty => json!(["isempty"]),
+            Op::MClear | Op::Clear => json!(["clear"]),
+            Op::GetI(i) => json!(["geti", i]),
+            Op::Push(x) => json!(["push", x]),
+            Op::Pop => json!(["pop"]),
+            Op::First => json!(["first"]),
+            Op::Last => json!(["last"]),
+            Op::Get(i) => json!(["geth", i]),
+            Op::Snap => json!(["snap"]),
+            _ => return None,
+        })
     }
     /// Koto statements (inside `run = |c|`, results appended to `r`)
     fn koto(&self) -> String {
@@ -207,6 +233,20 @@ impl Op {
             Op::GetI(i) => format!("  r.push(c.get_index({}))\n", i),
             Op::MExtend(es) => format!("  c.extend({})\n  r.push('u')\n", map_lit(es)),
             Op::MEqTo(es) => format!("  r.push(c == {})\n", map_lit(es)),
+            Op::EqVia(f, xs) => match *f {
+                "rhs" => format!("  r.push([{}] == c)\n", ints_cs(xs)),
+                "tuple" => format!("  r.push((1, c) == (1, [{}]))\n", ints_cs(xs)),
+                "tuple_rhs" => format!("  r.push((1, [{}]) == (1, c))\n", ints_cs(xs)),
+                _ => format!("  r.push(not ([{}] != c))\n", ints_cs(xs)),
+            },
+            Op::MEqVia(f, es) => match *f {
+                "rhs" => format!("  r.push({} == c)\n", map_lit(es)),
+                "tuple" => format!("  r.push((1, c) == (1, {}))\n", map_lit(es)),
+                "tuple_rhs" => format!("  r.push((1, {}) == (1, c))\n", map_lit(es)),
+                "ne" => format!("  r.push(not (c != {}))\n", map_lit(es)),
+                _ => format!("  r.push(not ({} != c))\n", map_lit(es)),
+            },
+            Op::RemPath(k) => format!("  r.push(c.remove('k{}'))\n", k),
             Op::Compound(n) => format!("  {}\n  r.push('u')\n", compound_src(n)),
         }
     }
@@ -400,7 +440,7 @@ impl St {
                 "u".into()
             }
             (St::L(l), Op::IsEmpty) => bool_tok(l.is_empty()),
-            (St::L(l), Op::EqTo(xs)) | (St::L(l), Op::NeTo(xs)) => bool_tok(l == xs),
+            (St::L(l), Op::EqTo(xs)) | (St::L(l), Op::NeTo(xs)) | (St::L(l), Op::EqVia(_, xs)) => bool_tok(l == xs),
             (St::L(l), Op::SwapWith(xs)) => {
                 let old = std::mem::replace(l, xs.clone());
                 ints_tok(&old)
@@ -421,7 +461,7 @@ impl St {
                 m_put(m, *k, *v);
                 "u".into()
             }
-            (St::M(m), Op::Rem(k)) => match m.iter().position(|e| e.0 == *k) {
+            (St::M(m), Op::Rem(k)) | (St::M(m), Op::RemPath(k)) => match m.iter().position(|e| e.0 == *k) {
                 Some(p) => val_tok(Some(m.remove(p).1)),
                 None => "null".into(),
             },
@@ -452,7 +492,7 @@ impl St {
             }
             (St::M(m), Op::MIsEmpty) => bool_tok(m.is_empty()),
             (St::M(m), Op::MSnapVia(_)) => ints_tok(&m.iter().flat_map(|e| [e.0, e.1]).collect::<Vec<_>>()),
-            (St::M(m), Op::MEqTo(es)) => {
+            (St::M(m), Op::MEqTo(es)) | (St::M(m), Op::MEqVia(_, es)) => {
                 if m.len() != es.len() {
                     bool_tok(false)
                 } else if es.len() <= 8 {
